@@ -22,6 +22,7 @@ ASSUMPTIONS = [
 PLANES = {
     1: ('px', -3.0), 2: ('px', 0.25), 3: ('px', 2.0), 4: ('py', 1.0),
     5: ('p', 1.0, 1.0, 0.0, 0.5),
+    11: ('px', 0.25), 12: ('py', 1.0), 13: ('p', 1.0, 0.0, 0.0, 0.25),   # the same surfaces under other numbers
 }
 RPP = (-2.0, 1.5, -1.0, 3.0, -4.0, 4.0)     # surface 6
 CURVED = {7: ('so', [4.0]), 8: ('kz', [-1.0, 0.5, 1]), 9: ('cz', [2.5]), 10: ('k/x', [1.0, 0.5, -0.5, 2.0, -1])}
@@ -30,6 +31,7 @@ LAT = geomdecide.lattice_points(-6.0, 6.0, 15)
 SURF_CARDS = {
     1: '1 px -3', 2: '2 px 0.25', 3: '3 px 2', 4: '4 py 1', 5: '5 p 1 1 0 0.5',
     6: '6 rpp -2 1.5 -1 3 -4 4',
+    11: '11 px 0.25', 12: '12 py 1', 13: '13 p 1 0 0 0.25',
     7: '7 so 4', 8: '8 kz -1 0.5 1', 9: '9 cz 2.5', 10: '10 k/x 1 0.5 -0.5 2 -1',
 }
 
@@ -91,6 +93,7 @@ def make_sense(P, flip=None):
 
 LITS4 = [1, -1, 2, -2, 3, -3, 4, -4]
 LITS3 = [1, -1, 2, -2, 4, -4]
+LITSD = [2, -2, 11, -11, 4, -12, 1, -13]
 LITSC = [7, -7, 8, -8, 9, -9, 10, -10, 2, -2, 4, -4]
 LITSX = [5, -5, 6, -6, ('f', 6, 1), ('f', -6, 1), ('f', 6, 4), ('f', -6, 4), 2, -2, 4, -4]
 IMPS2 = [(1, 1), (1, 0), (0, 1)]
@@ -199,6 +202,8 @@ def scenarios(tier):
             Scn('p3-k2', b_p3(LITS3, [1, 2]), None, None, 'three cells, k<=2 per cell'),
             Scn('p2-curved-k2', b_p2(LITSC, [1, 2], compl_inner=True), None, None,
                 'sphere, cylinder, one-sheet cones (surface collections) and planes, k<=2; witnesses + lattice'),
+            Scn('p2-dup-k3', b_p2(LITSD, [1, 2, 3]), None, None,
+                'one surface under several numbers (slivers that become patently empty after de-duplication)'),
             Scn('nonpure-union', b_nonpure, None, None, 'unions of intersections that contain unions (helper planes)'),
             Scn('p4-k3', b_p4(LITS4, [1, 2, 3], free=False), 2, 3, 'explicit De Morgan partner'),
             Scn('chain', b_chain(), 2, 3, 'complement chains #n of #m'),
@@ -214,6 +219,8 @@ def scenarios(tier):
             'sphere, cylinder, one-sheet cones and planes, k<=3; witnesses + lattice'),
         Scn('p3-k2', b_p3(LITS4, [1, 2]), None, None, 'three cells, k<=2 per cell'),
         Scn('nonpure-union', b_nonpure, None, None, 'unions of intersections that contain unions (helper planes)'),
+        Scn('p2-dup-k4', b_p2(LITSD, [1, 2, 3, 4]), None, None,
+            'one surface under several numbers (slivers that become patently empty after de-duplication)'),
         Scn('p4-k3', b_p4(LITS4, [1, 2, 3]), None, None, 'explicit De Morgan partner, full'),
         Scn('chain', b_chain(), 4, 4, 'complement chains #n of #m'),
     ]
